@@ -195,6 +195,51 @@ class Rewriter:
         return _rebuild(node, changes)
 
 
+RECORDS: Dict[str, List[str]] = {}  # NamedTuple / dataclass name -> field names (set by sa.repo from the analysed tree)
+
+
+def _project_record(node):
+    """``_Rec(a, b, c).second`` -> b ; ``_Rec(a, b, c)[1]`` -> b  for the repository's own record classes."""
+    value = node.value
+    if not (isinstance(value, ast.Call) and isinstance(value.func, ast.Name) and value.func.id in RECORDS):
+        return node
+    fields = RECORDS[value.func.id]
+    if len(value.args) == 1 and isinstance(value.args[0], ast.Starred) and not value.keywords:
+        # _Rec(*seq).field_k  ->  seq[k]
+        if isinstance(node, ast.Attribute) and node.attr in fields:
+            return ast.Subscript(value=value.args[0].value, slice=ast.Constant(fields.index(node.attr)), ctx=ast.Load())
+        if isinstance(node, ast.Subscript) and isinstance(node.slice, ast.Constant) and isinstance(node.slice.value, int):
+            return ast.Subscript(value=value.args[0].value, slice=node.slice, ctx=ast.Load())
+        return node
+    if any(isinstance(a, ast.Starred) for a in value.args) or any(kw.arg is None for kw in value.keywords):
+        return node
+    if isinstance(node, ast.Attribute):
+        if node.attr not in fields:
+            return node
+        idx = fields.index(node.attr)
+    elif isinstance(node, ast.Subscript) and isinstance(node.slice, ast.Constant) and isinstance(node.slice.value, int) \
+            and 0 <= node.slice.value < len(fields):
+        idx = node.slice.value
+    else:
+        return node
+    if idx < len(value.args):
+        return value.args[idx]
+    for kw in value.keywords:
+        if kw.arg == fields[idx]:
+            return kw.value
+    return node
+
+
+def _apply_partial(node):
+    """``functools.partial(f, a, k=v)(b, c)`` -> ``f(a, b, c, k=v)``"""
+    inner = node.func
+    name = ast.unparse(inner.func) if isinstance(inner.func, (ast.Name, ast.Attribute)) else ""
+    if name not in ("functools.partial", "partial") or not inner.args:
+        return node
+    return ast.Call(func=inner.args[0], args=list(inner.args[1:]) + list(node.args),
+                    keywords=list(inner.keywords) + list(node.keywords))
+
+
 class _Expander(Rewriter):
     def __init__(self, vars_: Dict[str, ast.expr], counter):
         self.vars = vars_
@@ -225,7 +270,12 @@ class _Expander(Rewriter):
             body = self.visit(node.body)
             self.local = saved
             return node if body is node.body else _rebuild(node, {"body": body})
-        return self.generic(node)
+        new = self.generic(node)
+        if RECORDS and isinstance(new, (ast.Attribute, ast.Subscript)):
+            return _project_record(new)
+        if isinstance(new, ast.Call) and isinstance(new.func, ast.Call):
+            return _apply_partial(new)
+        return new
 
     def _tag(self):
         self.counter[0] += 1
@@ -236,6 +286,14 @@ class _Expander(Rewriter):
         gens = []
         for gen in node.generators:
             new_iter = self.visit(gen.iter)
+            if isinstance(new_iter, (ast.GeneratorExp, ast.ListComp)) and isinstance(gen.target, ast.Name) \
+                    and len(new_iter.generators) == 1:
+                # fusion:  [g(y) for y in (f(x) for x in S)]  ==  [g(f(x)) for x in S]
+                self.local[gen.target.id] = new_iter.elt
+                inner = new_iter.generators[0]
+                new_ifs = list(inner.ifs) + [self.visit(cond) for cond in gen.ifs]
+                gens.append(ast.comprehension(target=inner.target, iter=inner.iter, ifs=new_ifs, is_async=gen.is_async))
+                continue
             for name, value in iter_bindings(gen.target, new_iter, self._tag()):
                 self.local[name] = value
             new_ifs = [self.visit(cond) for cond in gen.ifs]
@@ -511,16 +569,27 @@ class Interp:
         for iteration in range(max_iter + 1):
             nxt = []
             for cur in running:
+                known_len = None
+                if is_for and self.prune:
+                    # iterating a local list / tuple literal: the number of iterations is known
+                    seq = expand(node.iter, cur.vars, cur.counter)
+                    if isinstance(seq, (ast.List, ast.Tuple)) and not any(isinstance(e, ast.Starred) for e in seq.elts) \
+                            and isinstance(node.iter, ast.Name):
+                        known_len = len(seq.elts)
                 if not always:
                     ex = cur.fork()
                     feasible = True
                     if not is_for:
                         feasible = self.assume(ex, node.test, False)
+                    if known_len is not None and iteration < min(known_len, max_iter):
+                        feasible = False  # elements are left: the loop cannot end here
                     if feasible:
                         ex.push("loopexit", node, iteration)
                         results.extend(self.block(node.orelse, ex))
                 if iteration == max_iter:
                     continue
+                if known_len is not None and iteration >= known_len:
+                    continue  # no element left
                 body = cur.fork()
                 if not is_for and not always:
                     if not self.assume(body, node.test, True):
@@ -655,6 +724,20 @@ class Interp:
                     root = root.value
                 if isinstance(root, ast.Name) and call.func.attr in MUTATORS:
                     st.mutate(root.id, (expand(call.func, st.vars, st.counter), expand(call, st.vars, st.counter)))
+                    # a local list literal grows with what is appended to it (loops are unrolled, so this is exact)
+                    current = st.vars.get(root.id)
+                    if root is call.func.value and isinstance(current, ast.List) and not call.keywords \
+                            and not any(isinstance(e, ast.Starred) for e in current.elts):
+                        grown = None
+                        if call.func.attr == "append" and len(call.args) == 1:
+                            grown = list(current.elts) + [expand(call.args[0], st.vars, st.counter)]
+                        elif call.func.attr == "insert" and len(call.args) == 2 and isinstance(call.args[0], ast.Constant) \
+                                and call.args[0].value == 0:
+                            grown = [expand(call.args[1], st.vars, st.counter)] + list(current.elts)
+                        if grown is not None:
+                            muts = st.muts
+                            st.set(root.id, ast.List(elts=grown, ctx=ast.Load()))
+                            st.muts = muts  # rebinding the name must not forget what was recorded
 
     # -- feasibility --------------------------------------------------------
 
